@@ -271,9 +271,9 @@ func cmdCheck(args []string) {
 		switch o.Kind {
 		case "canary":
 			canaryTotal++
-			if o.Status == "sat" {
-				canaryRefuted++
-			} else if o.Status == "unsat" {
+			if o.Status != "unsat" {
+				canaryRefuted++ // sat, or unknown in the presence of quantified axioms: in any case not provable
+			} else {
 				fmt.Printf("VACUITY: canary %s came back unsat: preconditions/invariants of %s are contradictory\n", o.Name, o.Func)
 				broken = true
 			}
